@@ -441,6 +441,26 @@ def solve_task_at(task, K):
     broken_req = [d for d, c in rreq if not is_true(m.eval(c, model_completion=True))]
     rows_l, rows_r = model_rel(m, L), model_rel(m, R)
     rep = replay_plans(lhs, rhs, db, ufs, wrap, rows_l, rows_r, bool(L.okeys), allpk)
+    if rep['reproduced'] is False and broken_req:
+        # The model violates a physical operator's precondition (e.g. merge join on input not sorted by its keys) but is
+        # one on which the executor happens to give the same rows.  Look for a model of the same violation that is
+        # observable: all row slots present, non-empty results, and a different database each time.
+        s.push()
+        s.add([pr for t, rows in enc.tabs.items() for pr, _ in rows])
+        s.add(sem.card(L) >= 1)
+        for _ in range(8):
+            if s.check() != sat:
+                break
+            m2 = s.model()
+            db2, ufs2 = model_tables(m2, enc), uf_tables(m2, enc)
+            rep2 = replay_plans(lhs, rhs, db2, ufs2, wrap, model_rel(m2, L), model_rel(m2, R), bool(L.okeys), allpk)
+            if rep2['reproduced']:
+                m, db, ufs, rep = m2, db2, ufs2, rep2
+                broken_req = [d for d, c in rreq if not is_true(m.eval(c, model_completion=True))]
+                rows_l, rows_r = model_rel(m, L), model_rel(m, R)
+                break
+            s.add(Or([v.v != m2.eval(v.v, model_completion=True) for t, rows in enc.tabs.items() for _, vals in rows for v in vals]))
+        s.pop()
     res.update(verdict='sat', db=db, ufs={k: {str(a): v for a, v in t.items()} for k, t in ufs.items()}, broken_req=broken_req,
                rows_l=rows_l, rows_r=rows_r, replay=rep)
     return res
@@ -492,6 +512,29 @@ def to_engine_rows(rows):
 
 
 def replay_plans(lhs, rhs, db, ufs, wrap, rows_l, rows_r, ordered, allpk=False):
+    """Run both plans on the real executor over the model database.  Where the encoding leaves the relative order of
+    rows unspecified (a table's physical order, ties of a sort) the model fixes one realisation; the physical order in
+    which the rows are inserted is the matching free variable of the real engine, so the replay tries every insertion
+    order of the model's rows (at most 36 combinations) before it calls a counterexample not reproducible."""
+    import itertools
+    first = None
+    perms = [list(itertools.permutations(db[t])) for t in sorted(db)]
+    combos = itertools.islice(itertools.product(*perms), 36)
+    for n, combo in enumerate(combos):
+        dbp = {t: [list(r) for r in rows] for t, rows in zip(sorted(db), combo)}
+        r = _replay_plans_once(lhs, rhs, dbp, ufs, wrap, rows_l, rows_r, ordered, allpk)
+        if first is None:
+            first = r
+        if r['reproduced']:
+            if n:
+                r['how']['note'] = (r['how'].get('note', '') + ' (reproduced with the model rows inserted in another order; tie order is unspecified in the encoding)').strip()
+            return r
+        if r['reproduced'] is None:
+            return r
+    return first
+
+
+def _replay_plans_once(lhs, rhs, db, ufs, wrap, rows_l, rows_r, ordered, allpk=False):
     setup = ddl(allpk) + inserts(db)
     if wrap is not None:
         sc = ['scan', '$%d' % wrap, ['list', '$%d.0' % wrap, '$%d.1' % wrap], 'true']
